@@ -116,7 +116,8 @@ def run_case(case):
                         got = sorted(str(p) for p, inf in await client.list(raw_command=raw))
                         info["ops"] += 1
                         if got != [n]:
-                            sub = "LIST:leading-blanks-stripped" if raw == "LIST" and got == [n.lstrip()] else op
+                            # (a name like ' .' becomes '.' by the same stripping and is then skipped as a dot entry)
+                            sub = "LIST:leading-blanks-stripped" if raw == "LIST" and n != n.lstrip() and (got == [n.lstrip()] or (got == [] and n.strip() in (".", ".."))) else op
                             bad("listed-under-another-name", sub, f"listing of {str(cur)!r} returned {got!r}, the directory was created as {n!r}")
                     op = "stat"
                     st = await client.stat(n)
@@ -187,7 +188,7 @@ def run_case(case):
                     got = sorted(str(p) for p, inf in await client.list(raw_command=raw))
                     info["ops"] += 1
                     if got != [f]:
-                        sub = "LIST:leading-blanks-stripped" if raw == "LIST" and got == [f.lstrip()] else op
+                        sub = "LIST:leading-blanks-stripped" if raw == "LIST" and f != f.lstrip() and (got == [f.lstrip()] or (got == [] and f.strip() in (".", ".."))) else op
                         bad("listed-under-another-name", sub, f"listing returned {got!r}, the file was uploaded as {f!r}")
                 if g != f:
                     op = "rename"
